@@ -37,6 +37,20 @@ ASSUMPTIONS = [
 # ----------------------------------------------------------------------------- R1
 def r1(ctx):
     shared.forward_rule(ctx, "C06.R1", "drop_rows")
+    # "no drop set given" is None on every entry point — a mutable default would be shared by all calls of the process
+    P = ctx.project
+    for fi in shared.entry_points(P):
+        if "drop_rows" not in param_names(fi.node):
+            continue
+        a = fi.node.args
+        pos = list(a.posonlyargs) + list(a.args)
+        defaults = dict(zip([p.arg for p in pos][len(pos) - len(a.defaults):], a.defaults))
+        defaults.update({k.arg: d for k, d in zip(a.kwonlyargs, a.kw_defaults) if d is not None})
+        d = defaults.get("drop_rows")
+        ctx.look()
+        ctx.check(d is not None and isinstance(d, ast.Constant) and d.value is None, "C06.R1", f"{fi.qualname}: `drop_rows` defaults to None", fi.where,
+                  ctx.construct(fi, text="drop_rows default"),
+                  f"default is `{norm(d) if d is not None else 'missing'}`: a literal set would collect the dropped rows of every earlier call and drop them again from later data")
 
 
 # ----------------------------------------------------------------------------- helpers
@@ -641,7 +655,10 @@ def r7(ctx):
                     if name in NULL_TESTS:
                         found = True
                         break
-                    if name in ("any",) and cur.args:  # numpy.any(x, axis=1)
+                    if name in ("any",) and cur.args:  # numpy.any(x, axis=1): "some column of the ROW is null"
+                        ax = kwarg(cur, "axis") or (cur.args[1] if len(cur.args) > 1 else None)
+                        if not (isinstance(ax, ast.Constant) and ax.value in (1, -1)):
+                            break  # reduces over the wrong axis (or over everything): positions are not row positions
                         cur = cur.args[0]
                         continue
                     if name == "all":
@@ -693,6 +710,19 @@ def r8(ctx):
                 ctx.check(not msgs, "C06.R8", f"{f.qualname}: row counts subtract len(drop_rows)", f.where,
                           ctx.construct(f, text="row count"), "; ".join(msgs))
     ctx.floor("C06.R8", n, 4, "row-count expressions in functions taking drop_rows")
+    # the output index of the pandas materializer is reduced by drop_rows before ANY frame is built from it (also the zero-column frame)
+    f = P.cls(PANDAS).methods["_combine_columns"]
+    from .c05 import eval_output_test
+    cfg = CFG(f.node, prune=lambda test: eval_output_test(test, "pandas", {}))  # the index only matters for the pandas output
+    red = [st for st in cfg.stmts() if isinstance(st, ast.Assign) and norm(st.targets[0]) == "pandas_index" and "delete(drop_rows)" in norm(st.value)]
+    uses = [st for st in cfg.stmts() if isinstance(st, ast.Return) and any(isinstance(x, ast.Name) and x.id == "pandas_index" for x in ast.walk(st))]
+    ctx.floor("C06.R8", len(uses), 2, "frames built from the output index")
+    for u in uses:
+        ctx.look()
+        guard = [g for g in cfg.stmts() if isinstance(g, ast.If) and norm(g.test) == "drop_rows" and any(r is x for r in red for x in g.body)]
+        ok = bool(red) and bool(guard) and all(cfg.dominates(g, u) for g in guard)
+        ctx.check(ok, "C06.R8", "every pandas frame is built from the index with the dropped rows removed", f.module.line(u), ctx.construct(f, text=f"index use @ {stmt_text(u, 50)}"),
+                  "a frame is returned with the undropped index: a part without columns keeps all rows while the other parts lost the dropped ones")
 
 
 RULES = [("C06.R1", r1), ("C06.R2", r2), ("C06.R3", r3), ("C06.R4", r4), ("C06.R5", r5), ("C06.R6", r6), ("C06.R7", r7),
